@@ -38,11 +38,15 @@ pub fn sample_covariance(x: &[f64], y: &[f64]) -> f64 {
 pub fn sample_covariance_onepass(x: &[f64], y: &[f64]) -> f64 {
     assert_eq!(x.len(), y.len());
     let n = x.len();
-    (0..n)
-        .into_iter()
-        .map(|i| (x[i] - x[0]) * (y[i] - y[0]))
-        .sum::<f64>()
-        / (n - 1) as f64
+    let (mut sum_x, mut sum_y, mut sum_xy) = (0., 0., 0.);
+    for i in 0..n {
+        let (dx, dy) = (x[i] - x[0], y[i] - y[0]);
+        sum_x += dx;
+        sum_y += dy;
+        sum_xy += dx * dy;
+    }
+    // the shifted sums still have to be centred
+    (sum_xy - sum_x * sum_y / n as f64) / (n - 1) as f64
 }
 
 /// Calculates the covariance between two vectors x and y. This is a stable one-pass online algorithm.
